@@ -306,6 +306,18 @@ pub fn run(cases_path: &str, out_path: &str, tier: &str, seed: u64) {
                         });
                         let (ok, why) = verdict(&r, manipulated, &built.data, false, true);
                         sink.put(rec("c03.v2.message", cj, ok, "v2_message", json!({"why": why})));
+                        if pat == 0 && hs == 0 {
+                            for (vname, bytes) in [("marker_prefix", [&[0xCAu8, 3, b'P', b'G', b'P'][..], &msg[..]].concat()), ("marker_prefix_and_appended_octet", [&[0xCAu8, 3, b'P', b'G', b'P'][..], &msg[..], &[0u8][..]].concat()), ("appended_octet", [&msg[..], &[0u8][..]].concat())] {
+                                let appended = vname.contains("appended");
+                                let cj = json!({"ci": ci, "layer": "v2", "aead": aname, "n": n, "manip": m, "pattern": pat, "api": "message", "variant": vname});
+                                let r = guard(|| -> Result<Result<Consumed, String>, String> {
+                                    let msg_r = match Message::from_bytes(&bytes[..]) { Ok(x) => x, Err(e) => return Ok(Err(e.to_string())) };
+                                    match msg_r.decrypt_with_session_key(PlainSessionKey::V6 { key: KEY.to_vec().into() }) { Ok(d) => Ok(Ok(consume(d, pat))), Err(e) => Ok(Err(e.to_string())) }
+                                });
+                                let (ok, why) = verdict(&r, manipulated || appended, &built.data, false, true);
+                                sink.put(rec("c03.v2.message_variant", cj, ok, "v2_message", json!({"why": why})));
+                            }
+                        }
                     }
                     // packet-level stream decryptor
                     if hdr[..4] == built.header[..4] {
@@ -345,7 +357,11 @@ pub fn run(cases_path: &str, out_path: &str, tier: &str, seed: u64) {
             let (hdr, s) = apply(m, &built, 1 << 30, 0, n, seed);
             let body = [&hdr[..], &s[..]].concat();
             let msg = frame(true, 18, &[Chunk::Fixed(body.len())], &body, body.len(), false);
-            let rmode = if mode == "checkfirst" { Seipdv1ReadMode::default() } else { Seipdv1ReadMode::Streaming };
+            // the specification's cap (max_message_size) and whether the (manipulated) data fits under it
+            let maxmsg = c["maxmsg"].as_u64().unwrap_or(1 << 30) as usize;
+            let fits = c["fits"].as_bool().unwrap_or(true);
+            let manipulated = manipulated || !fits;
+            let rmode = if mode == "checkfirst" { Seipdv1ReadMode::CheckFirst { max_message_size: maxmsg } } else { Seipdv1ReadMode::Streaming };
             for &pat in patterns {
                 let cj = json!({"ci": ci, "layer": "v1", "mode": mode, "n": n, "manip": m, "pattern": pat, "api": "message"});
                 let r = guard(|| -> Result<Result<Consumed, String>, String> {
@@ -362,6 +378,20 @@ pub fn run(cases_path: &str, out_path: &str, tier: &str, seed: u64) {
                 });
                 let (ok, why) = verdict(&r, manipulated, &built.data, mode == "checkfirst", false);
                 sink.put(rec("c03.v1.message", cj, ok, "v1_message", json!({"why": why})));
+                if pat == 0 || pat == 4096 {
+                    // the same message behind a Marker packet (RFC 9580 5.8: must be ignored), and with octets appended after the container
+                    for (vname, bytes) in [("marker_prefix", [&[0xCAu8, 3, b'P', b'G', b'P'][..], &msg[..]].concat()), ("marker_prefix_and_appended_octet", [&[0xCAu8, 3, b'P', b'G', b'P'][..], &msg[..], &[0u8][..]].concat()), ("appended_octet", [&msg[..], &[0u8][..]].concat())] {
+                        let appended = vname.contains("appended");
+                        let cj = json!({"ci": ci, "layer": "v1", "mode": mode, "n": n, "manip": m, "pattern": pat, "api": "message", "variant": vname});
+                        let r = guard(|| -> Result<Result<Consumed, String>, String> {
+                            let msg_r = match Message::from_bytes(&bytes[..]) { Ok(x) => x, Err(e) => return Ok(Err(e.to_string())) };
+                            let ring = TheRing { session_keys: vec![PlainSessionKey::V3_4 { sym_alg: SymmetricKeyAlgorithm::AES128, key: KEY.to_vec().into() }], decrypt_options: DecryptionOptions::new().set_seipdv1_read_mode(rmode), ..Default::default() };
+                            match msg_r.decrypt_the_ring(ring, true) { Ok((d, _)) => Ok(Ok(consume(d, pat))), Err(e) => Ok(Err(e.to_string())) }
+                        });
+                        let (ok, why) = verdict(&r, manipulated || appended, &built.data, mode == "checkfirst" && !appended, false);
+                        sink.put(rec("c03.v1.message_variant", cj, ok, "v1_message", json!({"why": why})));
+                    }
+                }
 
                 let cj = json!({"ci": ci, "layer": "v1", "mode": mode, "n": n, "manip": m, "pattern": pat, "api": "StreamDecryptor::v1"});
                 let r = guard(|| -> Result<Result<Consumed, String>, String> {
@@ -371,7 +401,7 @@ pub fn run(cases_path: &str, out_path: &str, tier: &str, seed: u64) {
                     }
                 });
                 let (ok, why) = verdict(&r, manipulated, &built.inner, mode == "checkfirst", false);
-                if let (Out::Ok(Ok(cns)), true, true) = (&r, pat != 0 && pat != 1, n < 4000 || ((pat == 4096 || pat == 9000) && ci.as_u64().unwrap_or(0) % 4 == 0)) {
+                if let (Out::Ok(Ok(cns)), true, true) = (&r, pat != 0 && pat != 1 && maxmsg == 1 << 30, n < 4000 || ((pat == 4096 || pat == 9000) && ci.as_u64().unwrap_or(0) % 4 == 0)) {
                     trace_v1.run(json!({"ev": "init", "n": n, "mode": mode, "kind": m["kind"], "a": m["a"], "b": m["b"]}), cns);
                 }
                 sink.put(rec("c03.v1.stream", cj, ok, "v1_stream", json!({"why": why})));
